@@ -1061,3 +1061,59 @@ def unget_or_insert(f):
     if n:
         f.rewrites.append(('R6', f'`LV.get_or_insert(V);` -> `if LV.is_none() {{ LV = Some(V); }}` x{n}', ''))
     return f
+
+
+def unref_patterns_in_arms(f):
+    """R1 (generic): a match arm whose pattern binds through `&x` (e.g. `Some(&x)`, `(Some(&a), Some(&b))`) -> the pattern binds the reference `x_r_`
+    and the arm starts with `let x = *x_r_;` (arm body verbatim)"""
+    n = 0
+    pos = 0
+    while True:
+        m = re.compile(r'=>').search(f.body, pos)
+        if not m:
+            break
+        # pattern: back to the previous `{` / `,` / `}` at depth 0
+        i, depth = m.start() - 1, 0
+        while i >= 0:
+            ch = f.body[i]
+            if ch in ')]':
+                depth += 1
+            elif ch in '([':
+                depth -= 1
+            elif ch in '{,}' and depth == 0:
+                break
+            i -= 1
+        pat = f.body[i + 1:m.start()]
+        names = re.findall(r'&\s*(\w+)\b', pat)
+        if not names or re.search(r'\bif\b', pat):
+            pos = m.end()
+            continue
+        # arm body
+        j = m.end()
+        while f.body[j] in ' \n\t':
+            j += 1
+        if f.body[j] == '{':
+            e = match_brace(f.body, j)
+            body, end = f.body[j + 1:e], e + 1
+        else:
+            e, depth = j, 0
+            while e < len(f.body):
+                ch = f.body[e]
+                if ch in '([{':
+                    depth += 1
+                elif ch in ')]}':
+                    if depth == 0:
+                        break
+                    depth -= 1
+                elif ch == ',' and depth == 0:
+                    break
+                e += 1
+            body, end = f.body[j:e], e
+        pat2 = re.sub(r'&\s*(\w+)\b', r'\1_r_', pat)
+        lets = ' '.join(f'let {x} = *{x}_r_;' for x in names)
+        f.body = f.body[:i + 1] + pat2 + '=> { ' + lets + ' ' + body + ' }' + f.body[end:]
+        pos = i + 1 + len(pat2) + 4
+        n += 1
+    if n:
+        f.rewrites.append(('R1', f'{n} match arm(s): `&x` sub-patterns -> reference binding + `let x = *x_r_;` at the start of the arm', ''))
+    return f
